@@ -93,40 +93,48 @@ def oracle_exactly_once(case, recs):
         if r[0] == "panic": hits.append((None, "panic (kind %d) in thread %d" % (r[2], r[1])))
     return hits
 
-def oracle_fifo_bounds(case, recs):
-    """C02 on the observable history: capacity, justified Full and justified Empty answers"""
-    N = case.meta["N"]
-    hits = []
-    calls, _ = call_intervals(recs)
-    # timeline: pending count (accepted - yielded at the ret records) and in-progress sends after each record
-    pend, inprog = [], []
-    p = 0; started = {}
-    cur_send = set()
-    prog_pos = {}
+def timeline(case, recs):
+    """state after each record: (pending = accepted - yielded, set of threads with a send in progress, set of threads with a
+    consume in progress).  An operation is in progress from its first access (the reservation) to its return."""
     progs = case.meta["progs"]
-    for i, r in enumerate(recs):
+    pos, active = {}, {}
+    p = 0; states = []
+    for r in recs:
         if r[0] == "acc":
             t = r[1]
-            if t not in started:
-                started[t] = True
-                k = prog_pos.get(t, 0)
-                if k < len(progs[t]) and progs[t][k][0] == "pub": cur_send.add(t)
+            if t not in active:
+                k = pos.get(t, 0)
+                active[t] = progs[t][k][0] if k < len(progs[t]) else "?"
         elif r[0] == "ret":
             t = r[1]
             if r[2] == 1: p += 1
             if r[2] == 3: p -= 1
-            started.pop(t, None); cur_send.discard(t); prog_pos[t] = prog_pos.get(t, 0) + 1
-        pend.append(p); inprog.append(len(cur_send))
-        if p > N: hits.append((None, "more than N=%d events pending (%d)" % (N, p)))
+            active.pop(t, None); pos[t] = pos.get(t, 0) + 1
+        states.append((p, frozenset(t for t, o in active.items() if o == "pub"), frozenset(t for t, o in active.items() if o == "cons")))
+    return states
+
+def oracle_fifo_bounds(case, recs):
+    """C02 on the observable history: capacity, justified Full answers, justified Empty answers"""
+    N = case.meta["N"]
+    hits = []
+    calls, _ = call_intervals(recs)
+    states = timeline(case, recs)
+    init = (0, frozenset(), frozenset())
+    for (p, _, _) in states:
+        if p > N: hits.append((None, "more than N=%d events pending (%d)" % (N, p))); break
     for c in calls:
-        lo, hi = c["first"], c["last"]
-        if c["code"] == 0:      # Full: at some instant of the call, pending + sends in progress (including this one's slot) >= N
-            if not any(pend[i] + inprog[i] - 1 >= N for i in range(max(lo - 1, 0), hi)) and not any(pend[i] + inprog[i] >= N + 0 for i in range(max(lo - 1, 0), hi) if False):
-                hits.append((None, "send of thread %d rejected as full although fewer than N slots were taken during the whole call" % c["tid"]))
-        if c["code"] == 2:      # Empty: at some instant of the call the queue was empty
-            before = pend[lo - 1] if lo > 0 else 0
-            if not (before == 0 or any(pend[i] == 0 for i in range(lo, hi + 1))):
-                hits.append(("C02.ring.spurious_empty", "poll of thread %d answered empty although the queue held an accepted event during the whole call" % c["tid"]))
+        lo, hi, t = c["first"], c["last"], c["tid"]
+        window = [states[i] if i >= 0 else init for i in range(lo - 1, hi + 1)]
+        if c["code"] == 0:
+            # Full: at some instant of the call N slots were taken by accepted-unreceived events or by OTHER sends in progress
+            if not any(p + len(snd - {t}) >= N for (p, snd, _) in window):
+                hits.append((None, "send of thread %d rejected as full although fewer than N=%d slots were taken at every instant of the call" % (t, N)))
+        if c["code"] == 2:
+            if not any(p == 0 for (p, _, _) in window):
+                other = any(len(cns - {t}) > 0 for (_, _, cns) in window)
+                hits.append(("C02.ring.spurious_empty" if other else None,
+                             "poll of thread %d answered empty although the queue held an accepted event at every instant of the call%s"
+                             % (t, " (another consumer held a reservation meanwhile)" if other else "")))
     return hits
 
 def nontrivial_window(case, recs):
